@@ -9,12 +9,31 @@ use aws_smt_strings::character_sets::{merge_partition_list, merge_partitions, Ch
 
 type Part = Vec<(u32, u32)>;
 
+thread_local! {
+    /// how partitions are constructed for the current case: 0 = push in order, 1 = try_from_iter on the
+    /// reversed list, 2 = try_from_iter on a rotated list (merge must not care how its inputs were built)
+    static BUILD_MODE: std::cell::Cell<u8> = std::cell::Cell::new(0);
+}
+
 fn build(ivs: &[(u32, u32)]) -> CharPartition {
-    let mut p = CharPartition::new();
-    for &(a, b) in ivs {
-        p.push(a, b);
+    let mode = BUILD_MODE.with(|m| m.get());
+    if mode == 0 || ivs.len() < 2 {
+        if mode != 0 && ivs.len() == 1 {
+            return CharPartition::from_set(&aws_smt_strings::character_sets::CharSet::range(ivs[0].0, ivs[0].1));
+        }
+        let mut p = CharPartition::new();
+        for &(a, b) in ivs {
+            p.push(a, b);
+        }
+        return p;
     }
-    p
+    let mut v: Vec<aws_smt_strings::character_sets::CharSet> = ivs.iter().map(|&(a, b)| aws_smt_strings::character_sets::CharSet::range(a, b)).collect();
+    if mode == 1 {
+        v.reverse();
+    } else {
+        v.rotate_left(1);
+    }
+    CharPartition::try_from_iter(v.into_iter()).expect("disjoint intervals")
 }
 
 /// class of character c in the partition given as a list: Some(i) or None (complement)
@@ -241,8 +260,13 @@ pub fn run(tape: &[u8], cx: &Cx) -> Outcome {
     }
     let p1 = parts[0].clone();
     let p2 = parts.get(1).cloned().unwrap_or_default();
+    let mode = t.weighted(&[3, 1, 1]) as u8;
+    BUILD_MODE.with(|m| m.set(mode));
     let mut o = Outcome::default();
-    o.digest = fnv(format!("{:?}", parts).as_bytes());
+    o.digest = fnv(format!("{}{:?}", mode, parts).as_bytes());
+    if mode != 0 {
+        o.tag("inputs-built-by-try_from_iter");
+    }
     if cx.render {
         o.render = format!("partitions {}", parts.iter().map(|p| show_part(p)).collect::<Vec<_>>().join(" , "));
     }
@@ -263,6 +287,7 @@ pub fn run(tape: &[u8], cx: &Cx) -> Outcome {
     if p1.iter().chain(p2.iter()).any(|&(a, b)| a == 0 || b == MAX) {
         o.tag("touches-0-or-MAX");
     }
+    BUILD_MODE.with(|m| m.set(0));
     o
 }
 
@@ -276,7 +301,12 @@ pub fn enumerate(n_pairs: u32, n_triples: u32, part: usize, parts: usize, sink: 
         }
         for p2 in &all {
             let mut o = Outcome::default();
+            BUILD_MODE.with(|m| m.set(0));
             check_pair(p1, p2, &mut o);
+            // the same pair with inputs constructed by try_from_iter on a reversed list
+            BUILD_MODE.with(|m| m.set(1));
+            check_pair(p1, p2, &mut o);
+            BUILD_MODE.with(|m| m.set(0));
             sink.case(&o, interesting(p1, p2), || format!("merge {} {}", show_part(p1), show_part(p2)));
         }
         if sink.failed() {
